@@ -574,9 +574,12 @@ struct Uses {
     bexp: bool,
     /// slot c is a denominator limit: mostly small (the Farey walk is linear in it)
     climit: bool,
+    /// x is the argument of a logarithm: three quarters of the negative draws are made positive
+    /// (every call outside the domain costs seconds while C16/float-ln-domain-unchecked is open)
+    lnx: bool,
 }
 
-const U0: Uses = Uses { a: 0, b: 0, c: 0, d: 0, n: NK::None, k: false, s: SK::None, x: false, y: false, p: false, bexp: false, climit: false };
+const U0: Uses = Uses { a: 0, b: 0, c: 0, d: 0, n: NK::None, k: false, s: SK::None, x: false, y: false, p: false, bexp: false, climit: false, lnx: false };
 impl Uses {
     const fn a(mut self, v: u8) -> Uses {
         self.a = v;
@@ -616,6 +619,11 @@ impl Uses {
     }
     const fn p(mut self) -> Uses {
         self.p = true;
+        self
+    }
+    const fn lnx(mut self) -> Uses {
+        self.lnx = true;
+        self.x = true;
         self
     }
     const fn climit(mut self) -> Uses {
@@ -1460,6 +1468,9 @@ fn pre_powf(x: &FV, y: &FV, p: u64) -> Exp {
         .must(neg && !y01 && !(y.finite() && y.is_int()), L_POWNEG, M_POWNEG)
         .must(fin && x.zero && y.neg && !y.zero, L_DIV0, "")
         .known(fin && p != 0 && x.zero && y.neg && !y.zero, KF_POWF0, On::Returns)
+        // only the base is checked with assert_finite: the zero-base shortcut answers before the
+        // infinite exponent reaches an operation that rejects it
+        .known(x.finite() && x.zero && y.inf != 0 && p != 0, "C16/powf-infinite-exponent-unchecked", On::Returns)
         .unspec(fin && !x.zero && !y.zero && (any_far(&[x, y]) || ybig), "unspecified: power whose exponent may overflow")
         .heavy(ybig)
         .done()
@@ -1668,8 +1679,8 @@ fn float_ops<R: ModeTag, const B: Word>(v: &mut Vec<Op>) {
     fentry!(v, M, B, format!("{t}::sqrt"), FX, |c| SquareRoot::sqrt(&c.fx::<R, B>()), |d| { let x = fv(&d.x, B as u64); pre_sqrt(&x, x.prec) });
     fentry!(v, M, B, format!("{t}::exp"), FX, |c| c.fx::<R, B>().exp(), |d| { let x = fv(&d.x, B as u64); pre_exp(&x, x.prec) });
     fentry!(v, M, B, format!("{t}::exp_m1"), FX, |c| c.fx::<R, B>().exp_m1(), |d| { let x = fv(&d.x, B as u64); pre_exp(&x, x.prec) });
-    fentry!(v, M, B, format!("{t}::ln"), FX, |c| c.fx::<R, B>().ln(), |d| { let x = fv(&d.x, B as u64); pre_ln(&x, x.prec, false) });
-    fentry!(v, M, B, format!("{t}::ln_1p"), FX, |c| c.fx::<R, B>().ln_1p(), |d| { let x = fv(&d.x, B as u64); pre_ln(&x, x.prec, true) });
+    fentry!(v, M, B, format!("{t}::ln"), U0.lnx(), |c| c.fx::<R, B>().ln(), |d| { let x = fv(&d.x, B as u64); pre_ln(&x, x.prec, false) });
+    fentry!(v, M, B, format!("{t}::ln_1p"), U0.lnx(), |c| c.fx::<R, B>().ln_1p(), |d| { let x = fv(&d.x, B as u64); pre_ln(&x, x.prec, true) });
     fentry!(v, M, B, format!("{t}::powi"), U0.x().bexp(), |c| c.fx::<R, B>().powi(c.ib()), |d| { let x = fv(&d.x, B as u64); pre_powi(&x, &d.b, x.prec) });
     fentry!(v, M, B, format!("{t}::powf"), FXY, |c| c.fx::<R, B>().powf(&c.fy::<R, B>()), |d| { let (x, y) = (fv(&d.x, B as u64), fv(&d.y, B as u64)); pre_powf(&x, &y, ctx_max(&x, &y)) });
     // ---- Context methods
@@ -1685,8 +1696,8 @@ fn float_ops<R: ModeTag, const B: Word>(v: &mut Vec<Op>) {
     fentry!(v, C, B, format!("{ct}::sqrt"), CX, |c| c.cx::<R>().sqrt(&c.rx::<B>()), |d| pre_sqrt(&fv(&d.x, B as u64), d.p as u64));
     fentry!(v, C, B, format!("{ct}::exp"), CX, |c| c.cx::<R>().exp(&c.rx::<B>()), |d| pre_exp(&fv(&d.x, B as u64), d.p as u64));
     fentry!(v, C, B, format!("{ct}::exp_m1"), CX, |c| c.cx::<R>().exp_m1(&c.rx::<B>()), |d| pre_exp(&fv(&d.x, B as u64), d.p as u64));
-    fentry!(v, C, B, format!("{ct}::ln"), CX, |c| c.cx::<R>().ln(&c.rx::<B>()), |d| pre_ln(&fv(&d.x, B as u64), d.p as u64, false));
-    fentry!(v, C, B, format!("{ct}::ln_1p"), CX, |c| c.cx::<R>().ln_1p(&c.rx::<B>()), |d| pre_ln(&fv(&d.x, B as u64), d.p as u64, true));
+    fentry!(v, C, B, format!("{ct}::ln"), U0.lnx().p(), |c| c.cx::<R>().ln(&c.rx::<B>()), |d| pre_ln(&fv(&d.x, B as u64), d.p as u64, false));
+    fentry!(v, C, B, format!("{ct}::ln_1p"), U0.lnx().p(), |c| c.cx::<R>().ln_1p(&c.rx::<B>()), |d| pre_ln(&fv(&d.x, B as u64), d.p as u64, true));
     fentry!(v, C, B, format!("{ct}::powi"), U0.x().p().bexp(), |c| c.cx::<R>().powi(&c.rx::<B>(), c.ib()), |d| pre_powi(&fv(&d.x, B as u64), &d.b, d.p as u64));
     fentry!(v, C, B, format!("{ct}::powf"), CXY, |c| c.cx::<R>().powf(&c.rx::<B>(), &c.ry::<B>()), |d| pre_powf(&fv(&d.x, B as u64), &fv(&d.y, B as u64), d.p as u64));
     fentry!(v, C, B, format!("{ct}::convert_int"), U0.a(2).p(), |c| c.cx::<R>().convert_int::<B>(c.ia()), |_d| ret());
@@ -1713,7 +1724,7 @@ fn float_ops<R: ModeTag, const B: Word>(v: &mut Vec<Op>) {
     fentry!(v, V, B, format!("{t}::from(UBig)"), U0.a(1), |c| FBig::<R, B>::from(c.ua()), |_d| ret());
     fentry!(v, V, B, format!("{t}::from(IBig)"), U0.a(2), |c| FBig::<R, B>::from(c.ia()), |_d| ret());
     fentry!(v, V, B, format!("{t}::from(i64) / from(u128)"), U0.k(), |c| (FBig::<R, B>::from(c.k128() as i64), FBig::<R, B>::from(c.k128() as u128)), |_d| ret());
-    fentry!(v, V, B, format!("{t}::from_parts"), U0.a(2).k(), |c| FBig::<R, B>::from_parts(c.ia(), c.k128() as isize), |_d| ret());
+    fentry!(v, V, B, format!("{t}::from_parts"), U0.a(2).k(), |c| FBig::<R, B>::from_parts(c.ia(), c.k128() as isize), |d| Pre::new().unspec((d.k128() as isize).unsigned_abs() > (1 << 60), L_EXT).done());
     fentry!(v, V, B, format!("{t}::from_parts_const"), U0.a(2).k().n(NK::Prec), |c| FBig::<R, B>::from_parts_const(if c.a.neg { Sign::Negative } else { Sign::Positive }, low128(&c.a.mag), c.k128() as isize, if c.n == 0 { None } else { Some(c.nu()) }), |d| Pre::new().unspec((d.k128() as isize).unsigned_abs() > (1 << 60), L_EXT).done());
     fentry!(v, V, B, format!("Repr<{B}>::new / into_parts"), U0.a(2).k(), |c| Repr::<B>::new(c.ia(), c.k128() as isize).into_parts(), |d| Pre::new().unspec((d.k128() as isize).unsigned_abs() > (1 << 60), L_EXT).done());
     fentry!(v, V, B, format!("{t}::with_precision"), U0.x().n(NK::Prec), |c| c.fx::<R, B>().with_precision(c.nu()), |d| pre_passive(&fv(&d.x, B as u64)));
@@ -2425,7 +2436,7 @@ const LIMIT1: Duration = Duration::from_secs(10);
 const LIMIT2: Duration = Duration::from_secs(30);
 const LIMIT_KNOWN: Duration = Duration::from_secs(2);
 /// inputs that are not small can only ever be inconclusive: do not wait long for them
-const LIMIT_BIG: Duration = Duration::from_secs(3);
+const LIMIT_BIG: Duration = Duration::from_secs(2);
 
 enum Once {
     Ret(String),
@@ -2909,9 +2920,9 @@ fn flt_edge(base: u64) -> BoxedStrategy<Flt> {
     let far: Vec<(i64, i64)> = vec![(1, 1 << 21), (1, -(1 << 21)), (3, 1 << 40), (-3, -(1 << 40)), (1, 1 << 62), (-1, -(1 << 62)), (1, i64::MAX), (1, i64::MIN + 1), (-7, i64::MAX - 1)];
     let mk = |(s, e): (i64, i64)| (Int::from_i128(s as i128), e);
     let val = prop_oneof![
-        12 => prop::sample::select(fixed).prop_map(mk),
+        24 => prop::sample::select(fixed).prop_map(mk),
         2 => prop::sample::select(far).prop_map(mk),
-        6 => (int_edge(), prop::sample::select(vec![0i64, 1, -1, 2, -2, 10, -10, 63, -64, 100, -100, 999, -999])),
+        12 => (int_edge(), prop::sample::select(vec![0i64, 1, -1, 2, -2, 10, -10, 63, -64, 100, -100, 999, -999])),
     ];
     (prop_oneof![18 => Just(0i8), 1 => Just(1i8), 1 => Just(-1i8)], val, prec_edge(), 0u8..4)
         .prop_map(move |(inf, (sig, exp), prec, pm)| {
@@ -3070,6 +3081,9 @@ fn call_strategy(ops: Vec<usize>) -> BoxedStrategy<Case> {
                 }
                 if u.p {
                     c.p = raw.p;
+                }
+                if u.lnx && c.x.sig.neg && sel % 4 != 0 {
+                    c.x.sig.neg = false;
                 }
                 clamp_counts(&mut c, &u);
                 c
